@@ -14,6 +14,7 @@ pub fn generate(prop: &str, tier: &str, seed: u64) -> Vec<Vec<String>> {
         "C05" => spec::gen_c05(tier, seed),
         "C17" => spec::gen_c17(tier, seed),
         "C12" => spec::gen_c12(tier, seed),
+        "C13" => spec::gen_c13(tier, seed),
         "C01" => flwgen::gen_c01(tier, seed),
         "C03" => conc::gen_c03(tier, seed),
         "C20" => fmt::gen_c20(tier, seed),
@@ -53,9 +54,13 @@ pub fn execute(ctx: &mut Ctx, lines: &[String]) -> Vec<(Vec<String>, Vec<String>
 }
 
 pub fn child_main(args: &[String]) {
-    let _ = args;
-    eprintln!("no child modes yet");
-    std::process::exit(2);
+    match args.first().map(String::as_str) {
+        Some("dup") => spec::child_dup(&args[1..]),
+        _ => {
+            eprintln!("unknown child mode");
+            std::process::exit(2);
+        }
+    }
 }
 
 pub fn header_answer(line: &str) -> String {
